@@ -339,6 +339,53 @@ func checkFetchersValidate(c *Ctx, rule string) {
 		c.Violation(rule, "Client.Get/getters", get.Pos(), fmt.Sprintf("expected the block and the header getter handed to the segment caches, resolved %d", nSites))
 	}
 	sortFuncs(getters)
+	// a getter that only hands on the results of another function (`return segmentOf(c, …, start, limit, …)`)
+	// is judged through that function
+	for i := 0; i < len(getters); i++ {
+		fn := getters[i]
+		rets := returnsOf(fn)
+		if len(rets) != 1 {
+			continue
+		}
+		vals := returnValues(rets[0])
+		if len(vals) != 2 {
+			continue
+		}
+		e0, ok0 := vals[0].(*ssa.Extract)
+		e1, ok1 := vals[1].(*ssa.Extract)
+		if !ok0 || !ok1 || e0.Tuple != e1.Tuple || e0.Index != 0 || e1.Index != 1 {
+			continue
+		}
+		inner, isCall := e0.Tuple.(*ssa.Call)
+		if !isCall {
+			continue
+		}
+		h := staticCallee(inner)
+		if h == nil || h.Blocks == nil || !isRepoFunc(h) {
+			continue
+		}
+		// the range asked of the getter is the range asked of the function it delegates to
+		okRange := true
+		for _, pn := range []string{"start", "limit"} {
+			var gp, hp *ssa.Parameter
+			for _, p := range fn.Params {
+				if p.Name() == pn {
+					gp = p
+				}
+			}
+			for _, p := range h.Params {
+				if p.Name() == pn {
+					hp = p
+				}
+			}
+			if gp == nil || hp == nil || paramIndex(hp) >= len(inner.Call.Args) || stripConv(inner.Call.Args[paramIndex(hp)]) != ssa.Value(gp) {
+				okRange = false
+			}
+		}
+		if okRange {
+			getters[i] = h
+		}
+	}
 	for _, fn := range getters {
 		var pStart, pLimit *ssa.Parameter
 		for _, p := range fn.Params {
